@@ -135,6 +135,38 @@ theorem serializeXmlWriteW_unlimited (esc : Escapers) (env : Env) (p : XmlParams
     serializeXmlWriteW WriterPolicy.unlimited esc env p t start = serializeXmlWriteWith esc env p t start := by
   rw [serializeXmlWriteW_eq_replayCalls, replayCalls_unlimited, List.nil_append, serializeXmlCalls_eq]
 
+/-- Loop level: `serialize` in front of a never-failing writer that already holds `hist`. -/
+theorem writeGoW_unlimited (esc : Escapers) (env : Env) (pr : TokenParams) (t : Tree) (hist : List Str)
+    (s : FStack) (outs : List (Path × Output)) :
+    writeGoW WriterPolicy.unlimited esc env pr t hist s outs
+      = (hist.flatten ++ (writeGoWith esc env pr t s outs).1, (writeGoWith esc env pr t s outs).2) := by
+  unfold writeGoW
+  rw [writeLoopW_eq_replayCalls, replayCalls_unlimited, List.flatten_append]
+  have h1 := writeGoCalls_fst esc env pr t s outs
+  have h2 := writeGoCalls_snd esc env pr t s outs
+  unfold writeGoCalls at h1 h2
+  rw [h1, h2]
+
+/-- Loop level: `serialize_pretty` in front of a never-failing writer that already holds `hist`. -/
+theorem writePrettyGoW_unlimited (esc : Escapers) (env : Env) (pr : TokenParams) (sup : List Nat) (t : Tree)
+    (hist : List Str) (ps : PStack) (s : FStack) (outs : List (Path × Output)) :
+    writePrettyGoW WriterPolicy.unlimited esc env pr sup t hist (ps, s) outs
+      = (hist.flatten ++ (writePrettyGoWith esc env pr sup t ps s outs).1,
+         (writePrettyGoWith esc env pr sup t ps s outs).2) := by
+  unfold writePrettyGoW
+  rw [writeLoopW_eq_replayCalls, replayCalls_unlimited, List.flatten_append]
+  have h1 := writePrettyGoCalls_fst esc env pr sup t ps s outs
+  have h2 := writePrettyGoCalls_snd esc env pr sup t ps s outs
+  unfold writePrettyGoCalls at h1 h2
+  rw [h1, h2]
+
+/-- `Xot::write` in front of a never-failing writer is `serializeWriteWith`. -/
+theorem serializeWriteW_unlimited (esc : Escapers) (env : Env) (pr : TokenParams) (t : Tree) (start : Path) :
+    serializeWriteW WriterPolicy.unlimited esc env pr t start = serializeWriteWith esc env pr t start := by
+  unfold serializeWriteW serializeWriteWith
+  rw [writeGoW_unlimited]
+  simp
+
 /-- `Xot::write` (default parameters) threaded = the full entry point with default parameters. -/
 theorem serializeXmlWriteW_default (P : WriterPolicy) (esc : Escapers) (env : Env) (t : Tree) (start : Path) :
     serializeXmlWriteW P esc env {} t start = serializeWriteW P esc env {} t start := by
